@@ -264,6 +264,191 @@ def evaluate(ctx, harness, driver, lines, workdir):
     return recs
 
 
+# ------------------------------------------------------------------ export NAMES (stream NG of harness/ispd.cpp)
+# The one parameter of Circuit::exportIspd is the file name.  Unusual but valid names: dots in the last component (chip.v2,
+# chip.placed, a.b.c, components that look like the format's own extensions), directories whose names contain dots, the name given
+# bare, as ./name, as an absolute path or with a relative directory part; several exports side by side in ONE directory whose names
+# share a stem (chip, chip.placed, chip.placed.final: each must read back its OWN circuit, whatever the order of the exports), an
+# export overwritten under the same name (the LAST circuit must come back), and all the reads of all groups made by ONE Python
+# process (abs path, path relative to the directory, path without the .aux suffix; some files read twice), so that anything the
+# reader or the exporter keeps between calls -- in memory or on disk -- shows.
+
+N_GROUPS_Q = 300
+NAME_BASES = ["chip", "top", "a", "design_1", "c0"]
+NAME_PARTS = ["v2", "placed", "b", "c", "2024-10-02", "final", "0", "aux", "nodes", "pl", "scl", "tar", "v1", "1"]
+NAME_DIRS = ["plain", ".", "run.1", "a.b/c.d", "v1.0/out", "x.y.z", "chip.placed"]
+O1_MSG = "ERR RuntimeError: Could not find file"
+
+NAME_READER = r'''
+import os, sys
+sys.path.insert(0, sys.argv[1])
+import ispd_pyread as R      # puts the real pycoloquinte/coloquinte.py of VERIF_REPO and the stand-in module on the path
+for line in sys.stdin:
+    t = line.rstrip("\n").split("\t")
+    if len(t) != 2:
+        continue
+    try:
+        os.chdir(t[0])
+        print(R.dump(R.coloquinte.Circuit.read_ispd(t[1])))
+    except BaseException as e:
+        print("ERR %s: %s" % (type(e).__name__, str(e).replace("\n", " ")[:200]))
+    sys.stdout.flush()
+'''
+
+
+def replaced(circ_ints, rnd):
+    """the same circuit with every cell at a new position and orientation (the 'placed' version of an earlier export)"""
+    v = list(circ_ints)
+    for i in range(v[0]):
+        b = 1 + 8 * i
+        v[b + 5], v[b + 6], v[b + 7] = rnd.randint(-30, 60), rnd.randint(-30, 60), rnd.randint(0, 7)
+    return v
+
+
+def name_groups(seed, pool, count):
+    """NG lines; pool = circuits (lists of ints) from the harness generator"""
+    import random
+    rnd = random.Random(seed * 7919 + 20)
+    out = []
+    for g in range(count):
+        kind = rnd.choice(["single", "single", "stem", "stem", "stem", "siblings", "overwrite"])
+        parts = [rnd.choice(NAME_PARTS) for _ in range(rnd.randint(1, 3))]
+        if kind == "single" and rnd.random() < 0.15:
+            parts = []
+        base = rnd.choice(NAME_BASES)
+        full = ".".join([base] + parts)
+        if kind == "single":
+            names = [full]
+        elif kind == "stem":
+            pre = [".".join([base] + parts[:j]) for j in range(len(parts))]
+            names = rnd.sample(pre, rnd.randint(1, len(pre))) + [full]
+            if rnd.random() < 0.5:
+                rnd.shuffle(names)
+            elif rnd.random() < 0.5:
+                names.reverse()
+        elif kind == "siblings":
+            stem = ".".join([base] + parts[:-1])
+            names = list(dict.fromkeys([stem + "." + p for p in rnd.sample(NAME_PARTS, 3)] + ([stem + "_x"] if rnd.random() < 0.3 else [])))
+        else:
+            names = [full] + ([".".join([base] + parts[:-1])] if rnd.random() < 0.5 else []) + [full]
+        o1 = rnd.random() < 0.08          # relative directory part (observation O1 of design/C20.md)
+        ents, prev = [], None
+        for nm in names:
+            circ = replaced(prev, rnd) if (prev is not None and prev[0] > 0 and rnd.random() < 0.5) else list(rnd.choice(pool))
+            prev = circ
+            form = "o1" if o1 else rnd.choice(["bare", "bare", "dot", "abs", "abs"])
+            given = {"bare": nm, "dot": "./" + nm, "abs": nm, "o1": "sub.x/" + nm}[form]
+            ents.append("%d %s %d %s" % (1 if form == "abs" else 0, given, len(circ), " ".join(map(str, circ))))
+        out.append("NG %d_%d %s %d %s" % (seed, g, rnd.choice(NAME_DIRS), len(ents), " ".join(ents)))
+    return out
+
+
+def parse_group(line):
+    t = line.split()
+    gid, d, n = t[1], t[2], int(t[3])
+    p, ents = 4, []
+    for _ in range(n):
+        mode, given, ln = int(t[p]), t[p + 1], int(t[p + 2])
+        ents.append((mode, given, [int(x) for x in t[p + 3:p + 3 + ln]])); p += 3 + ln
+    return gid, d, ents
+
+
+def group_reads(line, workdir):
+    """the reads of one group, a pure function of the NG line: [(entry index, manner, cwd, path)]; every file left on disk is read
+    in one or two manners, a third of them once more at the end"""
+    import random
+    import zlib
+    rnd = random.Random(zlib.crc32(line.encode()))
+    gid, d, ents = parse_group(line)
+    dg = os.path.normpath(os.path.join(workdir, "g" + gid, d))
+    last = {}
+    for e, (mode, given, _) in enumerate(ents):
+        last[os.path.normpath(given)] = e
+    reads, again = [], []
+    for e in sorted(last.values()):
+        given = ents[e][1]
+        manners = {"abs": (workdir, os.path.join(dg, given) + ".aux"), "rel": (dg, given + ".aux"), "noext": (workdir, os.path.join(dg, given))}
+        if given.endswith((".aux", ".nodes", ".pl", ".nets", ".scl")):
+            del manners["noext"]      # "chip.aux" without suffix IS the .aux file of the export named "chip": not a way to name this export
+        for m in rnd.sample(sorted(manners), rnd.randint(1, 2)):
+            reads.append((e, m) + manners[m])
+        if rnd.random() < 0.33:
+            again.append((e, "abs") + manners["abs"])
+    rnd.shuffle(reads)
+    return reads + again
+
+
+def evaluate_names(ctx, harness, driver, glines, workdir):
+    """exports the groups (C++), reads every file left on disk back in ONE Python process, runs the model on the same circuits;
+    returns records shaped like those of evaluate(), one per read"""
+    if not glines:
+        return [], {}
+    gout, _, _ = common.run_both([harness, "run", workdir], None, glines, chunk=100)
+    reads = [(gi,) + r for gi, l in enumerate(glines) for r in group_reads(l, workdir)]
+    env = dict(os.environ, VERIF_REPO=common.REPO, PYTHONDONTWRITEBYTECODE="1")
+    env.pop("PYTHONPATH", None)
+    try:
+        p = subprocess.run([sys.executable, "-c", NAME_READER, os.path.dirname(PYREAD)], input="".join("%s\t%s\n" % (r[3], r[4]) for r in reads),
+                           capture_output=True, text=True, timeout=900, env=env, cwd=workdir)
+        got, err = [x for x in p.stdout.split("\n") if x], p.stderr.strip()[-300:]
+    except subprocess.TimeoutExpired:
+        got, err = [], "timeout"
+    got += ["ERR <reader process died: %s>" % err.replace("\n", " ")] * (len(reads) - len(got))
+    # the model: the same circuits as EX lines (the plain name c<uid>); its .aux text with the name replaced by the name as given
+    exl, key = [], {}
+    for gi, l in enumerate(glines):
+        gid, d, ents = parse_group(l)
+        for e, (mode, given, circ) in enumerate(ents):
+            key[(gi, e)] = len(exl)
+            exl.append("EX n%s_%d %s" % (gid, e, " ".join(map(str, circ))))
+    _, model, _ = common.run_both([harness, "run", workdir], [driver], exl, chunk=400)
+    recs = []
+    info = {"groups": len(glines), "exports": len(exl), "reads_in_one_python_process": len(reads), "by_manner": {}, "by_form": {},
+            "names_with_a_dot_in_the_last_component": 0, "directories_with_a_dot": 0, "groups_with_names_sharing_a_stem": 0,
+            "groups_with_an_overwritten_name": 0, "O1_relative_directory_part_refused_by_reader": 0, "distinct_names": set()}
+    for gi, l in enumerate(glines):
+        gid, d, ents = parse_group(l)
+        bn = [os.path.basename(g) for _, g, _ in ents]
+        info["directories_with_a_dot"] += 1 if "." in d.strip(".") else 0
+        info["groups_with_an_overwritten_name"] += 1 if len(set(bn)) < len(bn) else 0
+        info["groups_with_names_sharing_a_stem"] += 1 if any(a != b and b.startswith(a + ".") for a in bn for b in bn) else 0
+        for mode, g, _ in ents:
+            info["distinct_names"].add(os.path.basename(g))
+            info["names_with_a_dot_in_the_last_component"] += 1 if "." in os.path.basename(g) else 0
+            form = "absolute" if mode == 1 else "./name" if g.startswith("./") else "relative directory part" if "/" in g else "bare"
+            info["by_form"][form] = info["by_form"].get(form, 0) + 1
+    for (gi, e, manner, cwd, path), py in zip(reads, got):
+        l = glines[gi]
+        gid, d, ents = parse_group(l)
+        mode, given, circ = ents[e]
+        info["by_manner"][manner] = info["by_manner"].get(manner, 0) + 1
+        gparts = gout[gi].split(" || ")
+        k = key[(gi, e)]
+        dg = os.path.join(workdir, "g" + gid, d)
+        r = {"case": exl[k], "group": l, "py": py, "impl": gparts[e] if len(gparts) == len(ents) else gout[gi],
+             "o1": mode == 0 and "/" in given.replace("./", "", 1),
+             "name_note": "export #%d of the group, exportIspd(\"%s\") in directory %s, read back as read_ispd(\"%s\") from %s: "
+                          % (e, (dg + "/" + given).replace(workdir, "<DIR>") if mode == 1 else given, os.path.join("<DIR>", "g" + gid, d),
+                             path.replace(workdir, "<DIR>"), cwd.replace(workdir, "<DIR>"))}
+        mp = model[k].split(" @@ ")
+        if len(mp) != 4:
+            r["model_error"] = model[k]
+            mp = ["<model failed: %s>" % model[k], "ERR", "0", ""]
+        asgiven = (dg + "/" + given) if mode == 1 else given
+        sub = lambda files: "|".join([f.replace("cn%s_%d." % (gid, e), asgiven + ".") if j == 0 else f for j, f in enumerate(files.split("|"))])
+        hp = mp[0].rsplit(" # ", 1)
+        r["m_files"] = sub(hp[0]) + (" # " + hp[1] if len(hp) == 2 else "")
+        r["m_read"], r["m_wf"], r["m_unfixed"] = mp[1], mp[2] == "1", sub(mp[3])
+        recs.append(r)
+    hw = [(k, "HW " + r["py"][2:]) for k, r in enumerate(recs) if r["py"].startswith("R ")]
+    if hw:
+        hi, hm, _ = common.run_both([harness, "run", workdir], [driver], [x for _, x in hw], chunk=400)
+        for (k, _), a, b in zip(hw, hi, hm):
+            recs[k]["hpwl_back_impl"], recs[k]["hpwl_back_model"] = a.strip(), b.strip()
+    info["distinct_names"] = len(info["distinct_names"])
+    return recs, info
+
+
 def scratch_base():
     """directory for the exported files of one run (5 files per case, removed at the end): a tmpfs when there is one"""
     for d in ("/dev/shm",):
@@ -306,6 +491,13 @@ def run(ctx):
         for s in seeds:
             lines += common.harness_gen(harness, [s, n // len(seeds)])
         recs = evaluate(ctx, harness, driver, lines, workdir)
+        # export names: groups of exports into one directory (NG), circuits from the same generator
+        pool = [[int(x) for x in l.split()[2:]] for s in seeds for l in common.harness_gen(harness, [s + 500000, 400 if ctx.quick else 4000])]
+        glines = list(common.corpus("C20", ("NG ",)))
+        for s in seeds:
+            glines += name_groups(s, pool, (N_GROUPS_Q if ctx.quick else 6000) // len(seeds))
+        nrecs, ninfo = evaluate_names(ctx, harness, driver, glines, workdir)
+        recs += nrecs
     finally:
         shutil.rmtree(workdir, ignore_errors=True)
     n_vm, vm_bad = vm_crosscheck(recs)
@@ -319,6 +511,7 @@ def run(ctx):
     unfixed_like = 0
     for r in recs:
         l = r["case"]
+        lr, note = r.get("group", l), r.get("name_note", "")      # NG stream: the replayable case is the whole group
         orig = circuit_of_line(l)
         cells, nets, rows = orig
         dom = in_domain(orig)
@@ -351,7 +544,7 @@ def run(ctx):
             nontriv.add(l.split(" ", 2)[2])
         # ---- exporter: byte comparison
         if " # " not in r["impl"]:
-            exp_mism.append((l, "exporter did not return: " + r["impl"][:200], None))
+            exp_mism.append((lr, note + "exporter did not return: " + r["impl"][:200], None))
             continue
         ifiles, ihp = r["impl"].rsplit(" # ", 1)
         mfiles, mhp = r["m_files"].rsplit(" # ", 1) if " # " in r["m_files"] else (r["m_files"], "?")
@@ -363,15 +556,21 @@ def run(ctx):
             # UNCHANGED exporter (Ispd.export_ispd_unfixed) prints: the tree under check lacks the F14 repairs
             like = len(fi) == 5 and len(fu) == 5 and all(fi[k] == fu[k] for k in range(5) if fi[k] != fm[k])
             unfixed_like += 1 if like else 0
-            exp_mism.append((l, "files %s differ: %s" % (",".join(which), first_diff(ifiles, mfiles)), like))
+            exp_mism.append((lr, note + "files %s differ: %s" % (",".join(which), first_diff(ifiles, mfiles)), like))
         if ihp.strip() != mhp.strip():
             hp_mism.append((l, ihp, mhp))
         # ---- reader: real coloquinte.py vs model
+        if r.get("o1") and r["py"].startswith(O1_MSG):
+            # observation O1 (design/C20.md): a relative name WITH a directory part is written into the .aux as given and the reader
+            # resolves it against the directory of the .aux once more; a refusal with exactly this message is tolerated for exactly
+            # these names (a circuit that does come back is compared like any other)
+            ninfo["O1_relative_directory_part_refused_by_reader"] += 1
+            continue
         pyr = r["py"] if r["py"].startswith("R ") else "ERR"
         if r["py"].startswith("ERR"):
             dist["reader_refusals"] += 1
         if pyr != r["m_read"] and ifiles == mfiles:
-            rd_mism.append((l, r["py"][:300], r["m_read"][:300]))
+            rd_mism.append((lr, note + r["py"][:300], r["m_read"][:300]))
         if r["py"].startswith("R "):
             back = parse_circuit([int(x) for x in r["py"].split()[1:]])
             for c in back[0]:
@@ -381,16 +580,16 @@ def run(ctx):
         # ---- the statement on the real code (in-domain cases only)
         if dom:
             if not r["py"].startswith("R "):
-                stmt_fail.setdefault("reader refused an exported circuit", []).append((l, r["py"], ifiles))
+                stmt_fail.setdefault("reader refused an exported circuit", []).append((lr, note + r["py"], ifiles))
             else:
                 hp = "; Circuit::hpwl %s before, %s after export + read_ispd" % (ihp.strip(), r.get("hpwl_back_impl"))
                 seen_kinds = set()
                 for kind, detail in compare_roundtrip(orig, back):
                     if kind not in seen_kinds:      # one entry per circuit and kind
-                        stmt_fail.setdefault(kind, []).append((l, detail + hp, ifiles, r.get("hpwl_back_impl") != ihp.strip()))
+                        stmt_fail.setdefault(kind, []).append((lr, note + detail + hp, ifiles, r.get("hpwl_back_impl") != ihp.strip()))
                     seen_kinds.add(kind)
                 if not compare_roundtrip(orig, back) and r.get("hpwl_back_impl") != ihp.strip():
-                    stmt_fail.setdefault("hpwl", []).append((l, "Circuit::hpwl %s before, %s after export + read_ispd" % (ihp.strip(), r.get("hpwl_back_impl")), ifiles))
+                    stmt_fail.setdefault("hpwl", []).append((lr, note + "Circuit::hpwl %s before, %s after export + read_ispd" % (ihp.strip(), r.get("hpwl_back_impl")), ifiles))
 
     # ---- reporting
     for kind, fails in sorted(stmt_fail.items()):
@@ -438,9 +637,16 @@ def run(ctx):
                     "tools/bindings.py: text-level translator of module.cpp / coloquinte.hpp (entry count cross-checked against the source on every run)",
                     "operator<<(double) is modelled only for |value| < 10^5 (THalf); the lexing of the files by Python's split/int/float is tied by the "
                     "reader comparison, not modelled character by character"],
-                "evaluations": len(lines), "distinct_nontrivial": len(nontriv),
+                "evaluations": len(lines) + len(nrecs), "distinct_nontrivial": len(nontriv),
                 "rule": "distinct circuits that are in the domain of c20_roundtrip AND have a pin on a cell whose orientation is not N AND a row whose "
-                        "orientation is not N (the inputs on which the unchanged exporter is wrong)",
+                        "orientation is not N (the inputs on which the unchanged exporter is wrong).  Export NAMES (export_names, stream NG): groups of "
+                        "exports into one directory, names with dots in the last component (incl. components equal to the format's own "
+                        "extensions), directories with dots, the name given bare / as ./name / absolute / with a relative directory part (O1), "
+                        "names sharing a stem side by side in either order, a name exported twice (the last circuit must come back); every "
+                        "file left on disk is read by ONE Python process (absolute path, path relative to the directory, path without .aux, "
+                        "some twice) and must give back the circuit of ITS OWN (last) export: bytes vs the model with the name as given in "
+                        "the .aux, reader vs the model's reader, the C20 statement field by field and Circuit::hpwl",
+                "export_names": ninfo, "export_name_samples": [g[:160] for g in glines[:3]],
                 "exhaustive_grid_cases": len(grid),
                 "samples": samples, "input_distribution": dist, "bindings": binfo,
                 "model_vs_impl_differences": {"exporter_bytes": len(exp_mism), "reader": len(rd_mism), "hpwl": len(hp_mism), "domain": len(dom_mism),
@@ -468,6 +674,38 @@ def replay(ctx, path):
     case = r.get("case") or r["first_difference"]["case"]
     if isinstance(case, list):
         case = case[0]
+    if case.startswith("NG "):
+        harness = common.build_harness("ispd")
+        driver = common.build_driver("ispd")
+        workdir = os.path.join(scratch_base(), "c20_replay_%d" % os.getpid())
+        os.makedirs(workdir, exist_ok=True)
+        try:
+            recs, _ = evaluate_names(ctx, harness, driver, [case], workdir)
+        finally:
+            shutil.rmtree(workdir, ignore_errors=True)
+        print("case  :", case)
+        bad = False
+        for rec in recs:
+            orig = circuit_of_line(rec["case"])
+            print("--", rec["name_note"])
+            print("   files :", rec["impl"][:400])
+            print("   python:", rec["py"][:400])
+            if rec.get("o1") and rec["py"].startswith(O1_MSG):
+                print("   (observation O1: tolerated)")
+                continue
+            if rec["impl"].rsplit(" # ", 1)[0] != rec["m_files"].rsplit(" # ", 1)[0]:
+                print("   files differ from the model:", first_diff(rec["impl"].rsplit(" # ", 1)[0], rec["m_files"].rsplit(" # ", 1)[0])); bad = True
+            if (rec["py"] if rec["py"].startswith("R ") else "ERR") != rec["m_read"]:
+                print("   reader differs from the model's reader:", rec["m_read"][:400]); bad = True
+            if in_domain(orig):
+                if rec["py"].startswith("R "):
+                    d = compare_roundtrip(orig, parse_circuit([int(x) for x in rec["py"].split()[1:]]))
+                    for kind, detail in d:
+                        print("   differs:", kind, "--", detail)
+                    bad = bad or bool(d) or rec.get("hpwl_back_impl") != rec["impl"].rsplit(" # ", 1)[1].strip()
+                else:
+                    print("   the reader refused an exported circuit"); bad = True
+        return 1 if bad else 0
     if not case.startswith("EX "):
         print("nothing to replay:", case)
         return 1
